@@ -2,7 +2,10 @@
 clauses (used by harness/props/c27.py).  Pure functions of a `random.Random`."""
 
 
-def gen_library(rng, max_depth=2, const_min_depth=0):
+REPEATED = [("Parts", ["Sensor", "Pipe"]), ("Interfaces", ["Port", "Flange"]), ("Types", ["Base", "Unit"])]
+
+
+def gen_library(rng, max_depth=2, const_min_depth=0, repeated_names=False):
     """Returns the list of top-level class nodes (packages at depth < const_min_depth get no
     constants, so that files can be cut out below them without meeting payload).  A node is a dict
     {"kind": "package"|"model", "name", "path": [..], "consts": [[name, value]], "imports": [..], "children": [..], "body": str}."""
@@ -32,8 +35,28 @@ def gen_library(rng, max_depth=2, const_min_depth=0):
         return node
 
     tops = [mk_package([], 0)]
-    if rng.random() < 0.35:
+    if rng.random() < 0.35 or repeated_names:
         tops.append(mk_package([], 0 if const_min_depth else 1))
+    if repeated_names:
+        # the same sub-package name with the same class names below two (or three) different packages, as libraries
+        # repeat `Parts`, `Interfaces`, `Types` per domain: Hydro.Parts.Pipe and Thermo.Parts.Pipe
+        pname, mnames = rng.choice(REPEATED)
+        hosts = list(packages)
+        rng.shuffle(hosts)
+        for host in hosts[:rng.choice([2, 2, 3])]:
+            sub = {"kind": "package", "name": pname, "path": host["path"] + [pname], "consts": [], "children": [], "body": "",
+                   "repeated": True}
+            if len(sub["path"]) - 1 >= const_min_depth and rng.random() < 0.5:
+                sub["consts"].append([fresh("k"), rng.randint(2, 9)])
+            packages.append(sub)
+            prev = None
+            for mn in mnames:
+                m = {"kind": "model", "name": mn, "path": sub["path"] + [mn], "consts": [], "children": [], "body": "",
+                     "repeated": True, "sibling": prev}
+                prev = m
+                models.append(m)
+                sub["children"].append(m)
+            host["children"].append(sub)
     # shadowing: sometimes an inner package re-declares a constant name of an enclosing one
     for p in packages:
         if len(p["path"]) >= 2 and rng.random() < 0.25:
@@ -56,12 +79,17 @@ def gen_library(rng, max_depth=2, const_min_depth=0):
         scope = m["path"][:-1]
         x = "x_" + m["name"]
         decls, eqs, terms = [], [], []
+        if m.get("sibling") is not None:
+            # a class of the same package used by its bare name: found through the parent reference only
+            sib = m["sibling"]
+            decls.append("%s s_%s;" % (sib["name"], m["name"]))
+            terms.append("s_%s.x_%s" % (m["name"], sib["name"]))
         # visible constants: every constant of the library by some valid spelling
         consts = []
         for p in packages:
             for cname, _v in p["consts"]:
                 consts.append(ref_to(p["path"] + [cname], scope))
-        if done and rng.random() < 0.45:
+        if done and rng.random() < 0.45 and not m.get("repeated"):
             base = rng.choice(done)
             decls.append("extends %s;" % ref_to(base["path"], scope))
             terms.append("x_" + base["name"])
@@ -146,6 +174,7 @@ def split(rng, tops, nfiles, allow_payload_above_cut):
         cuts.append(rng.choice(must))
     pool = [n for n in cand if n not in cuts]
     rng.shuffle(pool)
+    pool.sort(key=lambda n: 1 if n.get("repeated") and rng.random() < 0.8 else 0)   # popped from the end: prefer them
     while len(cuts) < want and pool:
         cuts.append(pool.pop())
     if len(cuts) < want or (allow_payload_above_cut and not cuts):
